@@ -71,17 +71,14 @@ func (s *subPub) process() {
 	for {
 		select {
 		case info := <-s.subInfoChan:
-			var slice []*subInfo
-			v, ok := s.keyToNotifier.Load(info.key)
-			if !ok {
-				slice = make([]*subInfo, 0, 1)
-			} else {
-				slice = v.([]*subInfo)
-			}
-			slice = append(slice, &info)
-			s.keyToNotifier.Store(info.key, slice)
-			verifhook.PointArg("subscribe.sub.done", info.key)
+			s.register(info)
 		case info := <-s.unsubInfoChan:
+			// A registration is always queued before its unregistration, but select may
+			// pick the unregistration first. Apply every queued registration before it,
+			// otherwise the notifier would be registered afterwards and never removed.
+			for n := len(s.subInfoChan); n > 0; n-- {
+				s.register(<-s.subInfoChan)
+			}
 			v, ok := s.keyToNotifier.Load(info.key)
 			if !ok {
 				verifhook.PointArg("subscribe.unsub.done", info.key)
@@ -104,6 +101,20 @@ func (s *subPub) process() {
 			verifhook.PointArg("subscribe.unsub.done", info.key)
 		}
 	}
+}
+
+// register adds a subscription to the list of its key. Only called from process.
+func (s *subPub) register(info subInfo) {
+	var slice []*subInfo
+	v, ok := s.keyToNotifier.Load(info.key)
+	if !ok {
+		slice = make([]*subInfo, 0, 1)
+	} else {
+		slice = v.([]*subInfo)
+	}
+	slice = append(slice, &info)
+	s.keyToNotifier.Store(info.key, slice)
+	verifhook.PointArg("subscribe.sub.done", info.key)
 }
 
 // Publish the message, nameSpace kind param is that you use when you call Subscribe
